@@ -627,26 +627,60 @@ func constsOfType(c *Ctx, pkg, typ string) map[int64]string {
 // chainDefaultIsError: following the false edges of the comparison chain on
 // the subject leads to a return of a non-nil error.
 func chainDefaultIsError(f *ssa.Function, subject func(ssa.Value) bool) bool {
-	// last comparison block of the chain: its false successor is the default
-	for _, b := range f.Blocks {
+	// the constants the subject is compared with anywhere in f
+	isCmp := func(b *ssa.BasicBlock) (*ssa.BinOp, bool) {
 		iff, ok := b.Instrs[len(b.Instrs)-1].(*ssa.If)
 		if !ok {
-			continue
+			return nil, false
 		}
 		bo, ok := iff.Cond.(*ssa.BinOp)
 		if !ok || bo.Op != token.EQL || !subject(bo.X) {
+			return nil, false
+		}
+		return bo, true
+	}
+	key := func(bo *ssa.BinOp) string {
+		if k, ok := bo.Y.(*ssa.Const); ok && k.Value != nil {
+			return k.Value.ExactString()
+		}
+		return bo.Y.Name()
+	}
+	all := map[string]bool{}
+	for _, b := range f.Blocks {
+		if bo, ok := isCmp(b); ok {
+			all[key(bo)] = true
+		}
+	}
+	if len(all) == 0 {
+		return false
+	}
+	// the default arm: a false successor of a comparison that is not itself a comparison of the subject and that is
+	// reached only with *every* compared constant excluded (a nested re-test of one constant inside an arm is not
+	// the default)
+	found, ok := false, true
+	for _, b := range f.Blocks {
+		if _, isC := isCmp(b); !isC {
 			continue
 		}
 		def := b.Succs[1]
-		// is def another comparison of the chain?
-		if i2, ok := def.Instrs[len(def.Instrs)-1].(*ssa.If); ok {
-			if b2, ok := i2.Cond.(*ssa.BinOp); ok && b2.Op == token.EQL && subject(b2.X) {
-				continue
+		if _, again := isCmp(def); again {
+			continue
+		}
+		excluded := map[string]bool{}
+		for _, cf := range append(dominatingConds(def), edgeCond(b, def)...) {
+			if bo, isB := cf.Cond.(*ssa.BinOp); isB && bo.Op == token.EQL && !cf.Val && subject(bo.X) {
+				excluded[key(bo)] = true
 			}
 		}
-		return isErrorExit(def)
+		if len(excluded) < len(all) {
+			continue
+		}
+		found = true
+		if !isErrorExit(def) {
+			ok = false
+		}
 	}
-	return false
+	return found && ok
 }
 
 // stepArmName names the arm of the evaluator in which pos lies by the nearest
